@@ -192,7 +192,11 @@ Section Chart.
         (* _flags |= TRANSITION_FOUND; ...; _flags |= SPONTANEOUS; _flags &= ~TRANSITION_FOUND *)
         apply_micro m q (set_found (set_spont f1 true) false) r
     | None =>
-        ({| m_flags := set_spont f1 false; m_cancelled := m_cancelled m; m_cfg := m_cfg m |},
+        (* nothing enabled: after an event the event-less transitions are selected once more before the next
+           event is dequeued (the event is bound to _event now); after an event-less selection the engine goes
+           on to the queues *)
+        ({| m_flags := set_spont f1 (match e with Some _ => true | None => false end);
+            m_cancelled := m_cancelled m; m_cfg := m_cfg m |},
          q, R_MICROSTEPPED, [])
     end.
 
